@@ -53,7 +53,7 @@ class Prop(PropBase):
             cls = rng.choice(FCLASSES)
             n = rng.choice([1, 2, 3, 4, 5, 8, 9])
             L = rng.choice([1, 2, 5, 16, 64, 100, rng.randint(1, 300)])
-            rate_hz = rng.choice([1e3, 1e4, 1e5, 1e6])
+            rate_hz = rng.choice([1e3, 1e4, 1e5, 1e6, 3e6, 32e6, 7e6])     # also sample periods that are no whole number of ns
             cf_hz = rng.choice([150e6, 400e6, 800e6, 1.4e9])
             bw_hz = rate_hz if sigs.is_complex(cls) else rng.choice([rate_hz, 1e5, 1e6, 5e6])
             if cf_hz - n * bw_hz <= 1e6:
